@@ -117,7 +117,9 @@ def syms_in(v, acc=None):
 
 
 def effective_writers(K, field):
-    """methods that may write self.<field>: private helpers are replaced by the methods that call them"""
+    """methods that may write self.<field>: private helpers are replaced by the methods that call them.
+    A write is an assignment to self.<field>, to something inside it (self.<field>.x = .., self.<field>[i] = ..), or a call
+    of a method on it that assigns to its own attributes (a private record class of the same module)."""
     import ast as _ast
 
     funcs = {}
@@ -125,11 +127,29 @@ def effective_writers(K, field):
         node = getattr(func_of(f), "node", None)
         if node is not None:
             funcs.setdefault(node.name, node)
+    mutators = set()
+    mod_ns = getattr(K.module, "ns", {}) if K.module is not None else {}
+    for C in mod_ns.values():
+        if isinstance(C, ClassV) and C is not K:
+            for name, f in C.ns.items():
+                node = getattr(func_of(f), "node", None)
+                if node is None or name in ("__init__", "__post_init__", "__new__"):
+                    continue
+                if any(isinstance(n, _ast.Attribute) and isinstance(n.ctx, _ast.Store) and isinstance(n.value, _ast.Name) and n.value.id == "self" for n in _ast.walk(node)):
+                    mutators.add(node.name)
+
+    def is_self_field(n):
+        return isinstance(n, _ast.Attribute) and n.attr == field and isinstance(n.value, _ast.Name) and n.value.id == "self"
+
     direct = set()
     calls = {}
     for name, node in funcs.items():
         for n in _ast.walk(node):
-            if isinstance(n, _ast.Attribute) and isinstance(n.ctx, _ast.Store) and n.attr == field and isinstance(n.value, _ast.Name) and n.value.id == "self":
+            if isinstance(n, _ast.Attribute) and isinstance(n.ctx, _ast.Store) and (is_self_field(n) or is_self_field(n.value)):
+                direct.add(name)
+            if isinstance(n, _ast.Subscript) and isinstance(n.ctx, _ast.Store) and is_self_field(n.value):
+                direct.add(name)
+            if isinstance(n, _ast.Call) and isinstance(n.func, _ast.Attribute) and is_self_field(n.func.value) and n.func.attr in mutators:
                 direct.add(name)
             if isinstance(n, _ast.Call) and isinstance(n.func, _ast.Attribute) and isinstance(n.func.value, _ast.Name) and n.func.value.id == "self":
                 calls.setdefault(n.func.attr, set()).add(name)
@@ -146,3 +166,98 @@ def effective_writers(K, field):
         else:
             out.add(w)
     return out
+
+
+# ----------------------------------------------------------------------------------------
+# slots: the leaves of an object's own state, wherever the class keeps them (plain attribute, element of a
+# stored tuple / NamedTuple, attribute of a private record object).  Role inference works on slots, so that
+# regrouping the attributes of a class does not change what is found.
+# ----------------------------------------------------------------------------------------
+import re as _re
+
+_STEP = _re.compile(r"\.([A-Za-z_$][\w$:]*)|\[(\d+)\]")
+
+
+def _is_record(v):
+    from .values import NTuple
+
+    return isinstance(v, NTuple) or (type(v) is tuple and 0 < len(v) <= 8) or (isinstance(v, Obj) and not isinstance(v, Ext) and getattr(v.cls, "module", None) is not None and v.cls.node is not None)
+
+
+class SlotView:
+    def __init__(self, o):
+        self.o = o
+
+    def _leaves(self, v, path, out, depth=0):
+        from .values import NTuple
+
+        if depth < 3 and _is_record(v):
+            if isinstance(v, NTuple):
+                for name, x in zip(v.cls.nt_fields, v):
+                    self._leaves(x, f"{path}.{name}", out, depth + 1)
+            elif isinstance(v, tuple):
+                for j, x in enumerate(v):
+                    self._leaves(x, f"{path}[{j}]", out, depth + 1)
+            else:
+                for k, x in v.fields.items():
+                    self._leaves(x, f"{path}.{k}", out, depth + 1)
+        else:
+            out.append((path, v))
+
+    def items(self):
+        out = []
+        for k, v in self.o.fields.items():
+            self._leaves(v, str(k), out)
+        return out
+
+    def keys(self):
+        return [k for k, _ in self.items()]
+
+    def __contains__(self, path):
+        return any(k == path for k, _ in self.items())
+
+    def __getitem__(self, path):
+        for k, v in self.items():
+            if k == path:
+                return v
+        raise KeyError(path)
+
+    def get(self, path, default=None):
+        for k, v in self.items():
+            if k == path:
+                return v
+        return default
+
+    def __setitem__(self, path, value):
+        from .values import NTuple
+
+        m = _re.match(r"^([A-Za-z_$][\w$:]*)", path)
+        root, rest = m.group(1), path[m.end():]
+        steps = [(a or None, int(b) if b else None) for a, b in _STEP.findall(rest)]
+
+        def put(cont, steps):
+            if not steps:
+                return value
+            name, idx = steps[0]
+            if isinstance(cont, NTuple):
+                j = cont.cls.nt_fields.index(name) if name is not None else idx
+                items = list(cont)
+                items[j] = put(items[j], steps[1:])
+                return NTuple(cont.cls, items)
+            if isinstance(cont, tuple):
+                items = list(cont)
+                items[idx] = put(items[idx], steps[1:])
+                return tuple(items)
+            cont.fields[name] = put(cont.fields[name], steps[1:])
+            return cont
+
+        self.o.fields[root] = put(self.o.fields[root], steps)
+
+
+def slots(o):
+    return SlotView(o)
+
+
+def slot_root(path):
+    """the attribute of the object itself that a slot lives in"""
+    return _re.match(r"^([A-Za-z_$][\w$:]*)", path).group(1)
